@@ -18,6 +18,8 @@ struct vloop_mgr {
     /* live pumps in allocation order */
     struct uchain pumps;
     unsigned next_id;
+    /* pumps freed while their watcher was still active */
+    unsigned leaked_active;
     /* virtual clock */
     uint64_t now;
     /* log of back-end calls */
@@ -182,8 +184,12 @@ static void vloop_free(struct upump *upump)
     upump_stop(upump);
     upump_common_clean(upump);
     ulist_delete(&p->link);
+    /* a real loop would go on invoking a watcher that upump_stop() left
+     * active, on freed memory: never dispatched here, but reported */
+    if (p->active)
+        m->leaked_active++;
+    vloop_log_add(m, VLOOP_FREE, p->id, p->active);
     p->active = false;
-    vloop_log_add(m, VLOOP_FREE, p->id, false);
     /* may drop the last reference on the manager */
     upool_free(&m->common_mgr.upump_pool, p);
 }
@@ -517,6 +523,11 @@ void vloop_log_clear(struct upump_mgr *mgr)
     vloop_mgr_from_upump_mgr(mgr)->log_len = 0;
 }
 
+unsigned vloop_leaked_active(struct upump_mgr *mgr)
+{
+    return vloop_mgr_from_upump_mgr(mgr)->leaked_active;
+}
+
 const char *vloop_call_name(enum vloop_call call)
 {
     switch (call) {
@@ -564,6 +575,7 @@ struct upump_mgr *vloop_mgr_alloc_depth(uint16_t upump_pool_depth,
                           vloop_alloc_inner, vloop_free_inner);
     ulist_init(&m->pumps);
     m->next_id = 0;
+    m->leaked_active = 0;
     m->now = 0;
     m->log = NULL;
     m->log_len = m->log_cap = 0;
